@@ -44,6 +44,11 @@ theorem run_restores : ∀ p : Prog, Restores (run p)
     exact putRun_restores n raw force g (runList handler) (runList rawBody) (runList_restores handler)
       (runList_restores rawBody) r h
 
+  | .rootReplace n g body => by
+    intro r h
+    simp only [run]
+    exact rootReplaceRun_restores n g (runList body) (runList_restores body) r h
+
 theorem runList_restores : ∀ ps : List Prog, Restores (runList ps)
   | [] => by intro r _; simp [runList]
   | p :: ps => by
@@ -97,6 +102,18 @@ fallback do (as long as they are themselves well-nested), whichever of them rais
 theorem put_skeleton_restores (n : NodeRef) (raw : RawOpt) (force g : Bool) (handler rawBody : List Prog) (reg : Reg)
     (h : reg.wf = true) : (run (.put n raw force g handler rawBody) reg).reg = reg :=
   (run_restores _ reg h).1
+
+/-- The same for the root branch of `FST.replace` as repaired by C12-F2/F3 (all guards, including "own root" and
+"already consumed", before the `with`): a refused request has not touched the registry — nor, in the code, the lines —
+and whatever `code_as_all` / `_set_ast` do inside, the registry is restored. -/
+theorem root_replace_skeleton_restores (n : NodeRef) (g : Bool) (body : List Prog) (reg : Reg) (h : reg.wf = true) :
+    (run (.rootReplace n g body) reg).reg = reg :=
+  (run_restores _ reg h).1
+
+/-- A refused root replace is a no-op of the model: no registry event at all. -/
+theorem root_replace_guard_first (n : NodeRef) (body : List Prog) (reg : Reg) :
+    run (.rootReplace n true body) reg = ⟨reg, some .guard, []⟩ := by
+  simp [run, rootReplaceRun]
 
 /-- The same for the manual skeleton of `FST.unpar`. -/
 theorem unpar_skeleton_restores (n : NodeRef) (do1 do2 : Bool) (b1 b2 : List Prog) (reg : Reg) (h : reg.wf = true) :
@@ -248,6 +265,9 @@ example : run (.withM nA false false
     = ⟨[], some (.user false),
        [[(0, (3, 1))], [(0, (3, 1)), (1, (2, 1))], [(0, (3, 1))], [(0, (3, 2))], [(0, (3, 1))], [(0, (3, 2))],
         [(0, (3, 1))], []]⟩ := by decide
+
+/-- root replace whose `code_as_all` raises (unparsable code): entered, failed, registry empty. -/
+example : run (.rootReplace nA false [.raise true]) [] = ⟨[], some (.user true), [[(0, (3, 1))], []]⟩ := by decide
 
 /-- `unpar` skeleton: phase 1 entered, phase 2 raises: one `fail()`, registry empty. -/
 example : run (.unpar nA true [] true [.raise false]) [] = ⟨[], some (.user false), [[(0, (3, 1))], []]⟩ := by decide
